@@ -21,6 +21,48 @@ def separator_after_first_arg(parts):
     return None
 
 
+def _chain_form(F, b, it, prefix_locals):
+    """The iterator-chain spelling of the scan loop: `iter.map_while(|row| .. key.starts_with(prefix) ..)` — the closure
+    yields `Some` only on the true side of a starts_with test against the prefix the iterator itself was given, so
+    everything downstream of the adaptor sees this tenant's rows only."""
+    adapt = lambda cc: [0] if cc.path.rsplit("::", 1)[-1] in ("map", "filter", "into_iter", "by_ref", "peekable", "inspect", "enumerate") else None
+    for mw in b.calls():
+        if mw.path.rsplit("::", 1)[-1] not in ("map_while", "take_while") or len(mw.args) < 2 or mw.args[0][0] == "k":
+            continue
+        og = b.origins(mw.args[0][1][0], through_calls=adapt)
+        if not any(o[0] in ("call", "via") and o[1] is it for o in og):
+            continue
+        co = od.closure_of(b, mw.args[1])
+        if not co or F.mir(co[0]) is None:
+            continue
+        if not any(a[0] != "k" and (od.chain_locals(b, a) & prefix_locals) for a in co[1]):
+            return False, "the closure does not capture the prefix the iterator was given"
+        cb = Body(F.mir(co[0]), F.fns.get(co[0]))
+        for c in cb.calls():
+            if c.path.rsplit("::", 1)[-1] != "starts_with" or c.target is None:
+                continue
+            sb_, t = cb.switch_on(c.dest[0], c.target)
+            if t is None:
+                continue
+            zero = [tgt for v, tgt in t[2] if v == "0"]
+            if not zero:
+                continue
+            fail = cb.reachable(zero[0], avoid={sb_})
+            if mw.path.endswith("map_while"):
+                yields = [i for i, j, pl, rv, line, exp in cb.stmts() if rv[0] == "agg" and rv[1].endswith("Option::Some") and not (pl[0] != 0 and "Option<" not in cb.local_ty(0))]
+                yields = [i for i, j, pl, rv, line, exp in cb.stmts() if rv[0] == "agg" and rv[1].endswith("Option::Some") and cb.local_ty(pl[0]) == cb.local_ty(0)]
+            else:
+                yields = [i for i, j, pl, rv, line, exp in cb.stmts() if pl[0] == 0 and rv[0] == "use" and rv[1][0] == "k" and rv[1][1].strip() == "const true"]
+            # rows that are read errors may be passed on (they carry no key); a row with a key is yielded only after the test
+            keyed = [i for i in yields if cb.dominates(sb_, i)]
+            leaking = [i for i in keyed if i in fail]
+            if keyed and not leaking:
+                return True, "iterator chain: %s yields a keyed row only on the true side of starts_with(key, prefix)" % mw.path.rsplit("::", 1)[-1]
+            if leaking:
+                return False, "a keyed row is yielded on the failing side of the prefix test"
+    return False, "no map_while / take_while over this iterator with a prefix test"
+
+
 def run(ctx, F, cg):
     ctx.rule("R17a", "every loop over prefix_iterator_cf tests each key against the scan prefix before using the record; the failing side never reaches a use of the record in that iteration")
     ctx.rule("R17b", "every storage entry point taking a tenant id validates it (rejects ids containing the key separator) before any RocksDB operation")
@@ -114,6 +156,11 @@ def run(ctx, F, cg):
                         false_t = [tgt for v, tgt in t[2] if v == "0"]
                         if false_t:
                             tests.append((c, sb_, false_t[0], t[3]))
+            if not consumers:
+                okc, whyc = _chain_form(F, b, it, prefix_locals)
+                if okc:
+                    ctx.ok("R17a", inst, whyc)
+                    continue
             if not consumers:
                 ctx.violation("R17a", inst + "|no-consumer", where(r, it.line), "cannot find the record uses of this scan loop (checker needs update)")
                 continue
